@@ -10,10 +10,15 @@ import att
 ASSUME = [
     "the via-circuit API (Circuit.stream_via / TorCircuitEndpoint) and a user-installed attacher are not mixed, and the module-wide "
     "via-circuit attacher is not removed by the user (documented as an error in set_attacher)",
-    "a circuit used by a pending via-circuit connection stays BUILT until the connection's stream has appeared",
+    "a BUILT circuit used by a pending via-circuit connection stays BUILT until the connection's stream has appeared; a connection "
+    "may be started on a circuit that is still building (it waits; if the circuit fails the connection fails)",
     "SimTor acknowledges every command at once, except that the SETCONF installing the via-circuit attacher may be answered in a later step (ConfAck); attacher error reports are observed at TorState._attacher_error (wrapped on the instance)",
     "the SOCKS endpoint of a via-circuit connection is a fake whose local address the script supplies",
 ]
+
+
+def after_conf(state):
+    return "waitaddr" if state == "BUILT" else "waitbuilt" if state == "BUILDING" else "failed"
 
 
 def rand_script(rng, n):
@@ -31,7 +36,7 @@ def rand_script(rng, n):
             hold[0] = False
             for v in via.values():
                 if v["st"] == "waitconf":
-                    v["st"] = "waitaddr"
+                    v["st"] = after_conf(cs[v["c"]])
             out.append(dict(a="ConfAck"))
         elif r < 0.25:
             c = rng.choice([1, 2])
@@ -42,6 +47,9 @@ def rand_script(rng, n):
             if to == "GONE" and cs[c] == "BUILT" and any(v["st"] in ("waitconf", "waitaddr", "reg") and v["c"] == c for v in via.values()):
                 continue
             cs[c] = to
+            for v in via.values():
+                if v["st"] == "waitbuilt" and v["c"] == c:
+                    v["st"] = "waitaddr" if to == "BUILT" else "failed"
             out.append(dict(a="CircStep", c=c, to=to))
         elif r < 0.40:
             who = rng.choice(["A", "A", "B", "none"])
@@ -83,12 +91,12 @@ def rand_script(rng, n):
             out.append(dict(a="Answer", s=s))
         elif r < 0.92:
             ks = [k for k, v in via.items() if v["st"] == "idle"]
-            cb = [c for c in cs if cs[c] == "BUILT"]
+            cb = [c for c in cs if cs[c] in ("BUILT", "BUILDING")]
             if not ks or not cb or att_ == "A":
                 continue
             k, c = rng.choice(ks), rng.choice(cb)
             late = att_ == "none" and rng.random() < 0.6
-            via[k] = dict(st="waitconf" if late else "waitaddr", c=c)
+            via[k] = dict(st="waitconf" if late else after_conf(cs[c]), c=c)
             att_ = "V"
             out.append(dict(a="ViaConnect", k=k, c=c, late=late))
             if late:
